@@ -120,6 +120,8 @@ def cli_run(falco, workdir, tree, as_json=True):
         cmd += ["-I", d]
     if tree["filter"]:
         cmd += ["--filter", tree["filter"]]
+    for t in tree.get("tags") or []:
+        cmd += ["-t", t]
     cmd += [tree["main"]]
     for limit in (180, 600):
         try:
@@ -131,7 +133,7 @@ def cli_run(falco, workdir, tree, as_json=True):
 
 
 def flat_tree(mainv, testv, cov):
-    return {"cov": bool(cov), "files": {"main.vcl": mainv, "main.test.vcl": testv}, "main": "main.vcl", "include_paths": [], "filter": ""}
+    return {"cov": bool(cov), "files": {"main.vcl": mainv, "main.test.vcl": testv}, "main": "main.vcl", "include_paths": [], "filter": "", "tags": []}
 
 
 def tree_request(tree):
@@ -155,6 +157,21 @@ def parse_cli_json(out):
 
 def coarse(cases):
     return [(g, n, sc, sk, "pass" if v == "pass" else "fail", lg) for g, n, sc, sk, v, lg in cases]
+
+
+def helper_tie():
+    """(registered names from Gen/TestRunHelpers.v, names the generator's tables write)"""
+    import re
+    try:
+        txt = open(os.path.join(V.COQ, "Gen", "TestRunHelpers.v")).read()
+    except OSError:
+        return None, set()
+    reg = re.findall(r'^  \("([a-z_.]+)", \(\[', txt, re.M)
+    text = " ".join([str(a) + " " + str(b) for a, b in list(T.ASSERTS.values()) + list(T.STATEFUL.values())]
+                    + [" ".join(x["mut"].values()) + " " + str(x.get("obs")) + " " + str(x.get("undo", "")) for x in T.RES]
+                    + [str(T.AUX_TESTS), str(getattr(T, "TEST_DECLS", ""))])
+    used = set(re.findall(r"\b((?:assert|testing)(?:\.[a-z_]+)?)\(", text))
+    return (reg or None), used
 
 
 def run(ctx):
@@ -183,10 +200,15 @@ def run(ctx):
         "this is C10_quiet_condition_in_store_model at the level of every observable (fresh garbage cells are not observable)",
     ]
     violations_before = len(ctx.violations)
+    reg, used = helper_tie()
+    ctx.obligation("every test-only function the generator writes is registered in tester/function/functions.go (Gen/TestRunHelpers.v)",
+                   reg is not None and not (used - set(reg)),
+                   "" if reg is not None and not (used - set(reg)) else "not registered: %s" % sorted(used - set(reg or ())))
 
     # ------------------------------------------------------------------ known finding: corpus
     n_corpus = corpus_known(ctx, falco, work)
     n_cache_facts = cache_is_per_interpreter(ctx)
+    n_broken = 0
 
     # ------------------------------------------------------------------ suites
     n_suites = 500 if thorough else 30
@@ -221,6 +243,7 @@ def run(ctx):
             su.layout = rng.choice(["flat", "flat", "include", "include", "ipath"])
             su.nfiles = rng.choice([1, 1, 2])
     group_scope_check(ctx, impl)
+    n_broken = broken_file_check(ctx, impl, falco, work, g)
 
     agree = 0
     nontrivial = set()
@@ -374,6 +397,9 @@ def run(ctx):
                        "searched": "%d runs of the test runner agree with the model; no order / coverage dependence" % n_api})
     s0 = suites[0]
     ctx.samples = [{"main.vcl": s0.main_vcl()[:1200], "main.test.vcl": s0.test_vcl(s0.items())[:1200]}]
+    ctx.coverage["helpers_registered_in_source"] = len(reg or ())
+    ctx.coverage["helpers_written_by_generator"] = sorted(used)
+    ctx.coverage["helpers_never_written_by_generator"] = sorted(set(reg or ()) - used)
     ctx.coverage.update({
         "evaluations": n_api + n_cli,
         "distinct_nontrivial": len(nontrivial),
@@ -383,7 +409,7 @@ def run(ctx):
         "process_runs": n_cli, "corpus_known_cases": n_corpus,
         "orders_per_suite": {"<=5 tests": "every order (quick: 41 of 120 for 5 tests) + subsets", ">5 tests": "31 random orders / subsets"},
         "verdicts_in_first_order": verdicts,
-        "cache_shape_facts_checked": n_cache_facts,
+        "cache_shape_facts_checked": n_cache_facts, "runs_failing_before_any_test (unparsable file)": n_broken,
         "dimension_counts": {"suites_with_describe_groups_and_hooks": len(suites) - n_before_groups,
                              "api_runs_on_grouped_suites": n_api_grouped,
                              "runs_aborted_by_a_raising_hook (runner and model agree)": n_abort,
@@ -465,6 +491,24 @@ def cache_is_per_interpreter(ctx):
     return len(facts)
 
 
+def broken_file_check(ctx, impl, falco, work, g):
+    """runner.Test failing before any test runs: a test file that does not parse (or a main VCL that does not)
+    makes `falco test` fail as a whole - exit 1, no report - whatever the other files contain"""
+    s = fixed_suite(g, ["pass", "pass"], [False, False])
+    s.nfiles = 2
+    n = 0
+    for which in ("b.test.vcl", "main.vcl"):
+        tr = s.tree(s.items(), 0)
+        tr["files"][which] = tr["files"][which] + "\nsub broken {\n  set req.http.x = ;\n}\n"
+        rep = U.robust_batch(impl, [tree_request(tr)], hang_s=120)[0][0]
+        rc, out, err = cli_run(falco, os.path.join(work, "cli"), tr)
+        n += 2
+        if parse_api(rep) != "abort" or rc == 0 or parse_cli_json(out) is not None:
+            ctx.violation("%s does not parse: the run must fail as a whole (API: %s, process exit %d)" % (which, (rep or "")[:80], rc),
+                          {"files": tr["files"]})
+    return n
+
+
 def fixed_suite(g, expects, skips):
     s = T.Suite()
     g.nlog = 0
@@ -491,7 +535,9 @@ def corpus_known(ctx, falco, work):
         if os.path.isfile(os.path.join(p, "expect")):
             # a repaired defect: the report must be the recorded one
             exp = json.load(open(os.path.join(p, "expect")))
-            rc, out, err = cli_run(falco, os.path.join(work, "cli"), flat_tree(mainv, testv, 0))
+            tr = flat_tree(mainv, testv, 0)
+            tr["tags"] = exp.get("tags", [])
+            rc, out, err = cli_run(falco, os.path.join(work, "cli"), tr)
             pj = parse_cli_json(out)
             if pj is None or rc != exp["exit"] or list(pj[1]) != exp["summary"]:
                 ctx.violation("corpus/C10/%s: exit %d summary %s, expected exit %d summary %s (a repaired defect is back)" % (
